@@ -1,6 +1,7 @@
 package main
 
 import (
+	"strconv"
 	"strings"
 
 	"verif/harness/lib"
@@ -38,6 +39,15 @@ func c19Program(g *prog.Gen, idx int) []*prog.Op {
 			for i := 1 + g.R.Intn(3); i > 0; i-- {
 				o.Keys = append(o.Keys, [2]string{keys[g.R.Intn(len(keys))], ""})
 			}
+			// versioned programs: an entry that names a version in front of (or behind) entries that name none
+			if idx%2 == 1 && g.R.Chance(60) {
+				e := [2]string{keys[g.R.Intn(len(keys))], "@ref"}
+				if g.R.Chance(70) {
+					o.Keys = append([][2]string{e}, o.Keys...)
+				} else {
+					o.Keys = append(o.Keys, e)
+				}
+			}
 		case r < 76:
 			o = &prog.Op{Kind: "putObjectTagging", B: bb, K: k, Tags: g.KVs([]string{"t1", "t2"}, 2)}
 		case r < 82:
@@ -54,6 +64,52 @@ func c19Program(g *prog.Gen, idx int) []*prog.Op {
 	}
 	return ops
 }
+
+// c19VersionOracle: a record names the right version. For a batch delete every record's version id must be the
+// one the request gave for that key in some entry (none given = none reported). (Records of PUT / copy name the
+// ETag, not a version id.)
+func c19VersionOracle(steps []*prog.Step, res *lib.Result, idx int) {
+	for i, st := range steps {
+		if st.Obs == nil || st.Obs.Code != "" || len(st.Obs.EventVids) == 0 {
+			continue
+		}
+		bad := ""
+		switch st.Op.Kind {
+		case "deleteObjects":
+			for _, rec := range st.Obs.EventVids {
+				f := strings.SplitN(rec, " ", 3)
+				if len(f) < 3 {
+					continue
+				}
+				ok := false
+				for _, kv := range st.Op.Keys {
+					if hexOf(kv[0]) == f[1] && (kv[1] == f[2] || (kv[1] == "" && f[2] == "null")) {
+						ok = true
+					}
+				}
+				if !ok {
+					bad = "record " + rec + " names a version id the request did not give for that key"
+				}
+			}
+		}
+		if bad != "" {
+			res.Fail(lib.Failure{Kind: "property", Signature: "event:" + st.Op.Kind + ":fields(version)", What: "step " + itoa(i) + " of program " + itoa(idx) + ": " + bad,
+				Input: map[string]interface{}{"family": "events-nofilter", "program_index": idx, "steps": prog.Describe(steps, i)}, Impl: strings.Join(st.Obs.EventVids, "; ")})
+			return
+		}
+	}
+}
+
+func hexOf(s string) string {
+	const d = "0123456789abcdef"
+	b := make([]byte, 0, 2*len(s))
+	for i := 0; i < len(s); i++ {
+		b = append(b, d[s[i]>>4], d[s[i]&15])
+	}
+	return string(b)
+}
+
+func itoa(i int) string { return strconv.Itoa(i) }
 
 func c19Classify(s *prog.Step, class string) (string, string) {
 	if class == "fine" {
@@ -97,7 +153,7 @@ func init() {
 	fam := func(name string, versioning bool, filter map[string]bool, off int64, q, t int) checkFn {
 		return func(a lib.Args, res *lib.Result) error {
 			return runPrograms(a, res, progOpts{name: name, prop: "C19", programs: tierN(a, q, t), gen: c19Program, versioning: versioning,
-				nGateways: 1, classify: c19Classify, seedOff: off, events: true, filter: filter})
+				nGateways: 1, classify: c19Classify, seedOff: off, events: true, filter: filter, post: c19VersionOracle})
 		}
 	}
 	checks["c19"] = checkDef{"C19",
